@@ -1,6 +1,6 @@
 PROP = dict(
     gen=["layouts"],
-    proof_files=["Properties/C05.v", "Proofs/ConnBase.v", "Proofs/ConnC05.v"],
+    proof_files=["Properties/C05.v", "Proofs/ConnBase.v", "Proofs/ConnC14.v", "Proofs/ConnC16.v", "Proofs/ConnC05.v"],
     model_files=["Model/ConnLTS.v", "Model/ConnRun.v"],
     trusted=[],
     assumptions=[],
